@@ -712,7 +712,7 @@ class BradleyTerryFull:
                     team_i.team,
                     team_i.rank,
                 )
-                delta += ((gamma_value * sigma_squared_to_ciq) / c_iq) * piq * (1 - piq)
+                delta += (sigma_squared_to_ciq / c_iq) * piq * (1 - piq) * gamma_value
 
             intermediate_result_per_team = []
             for j, j_players in enumerate(team_i.team):
